@@ -310,10 +310,19 @@ def gen_scenario(rng, ops=None, force=None):
             T = max(T, 9)
             k = rng.randint(1, max(1, T // 4))
             glabels = [rng.choice(["a", "b", "c", "d", "e", "f"])[0] + str(i) for i in range(k)]
-            if rng.random() < 0.5:
+            r = rng.random()
+            if r < 0.35:
                 groups = [glabels[i % k] for i in range(T)]
-            else:
+            elif r < 0.7:
                 groups = sorted(glabels[i % k] for i in range(T))
+            else:
+                # unbalanced group sizes (each group keeps >= 3 members so its calibration window is valid)
+                sizes = [3] * k
+                for _ in range(T - 3 * k):
+                    sizes[rng.randrange(k) if rng.random() < 0.5 else 0] += 1
+                groups = [glabels[gi] for gi, sz in enumerate(sizes) for _ in range(sz)]
+                if rng.random() < 0.5:
+                    rng.shuffle(groups)
             params["groups"] = groups
         if variant.endswith("calib"):
             a = rng.randint(0, T // 4)
@@ -341,7 +350,18 @@ def gen_scenario(rng, ops=None, force=None):
     elif op == "mean_grp":
         dtype = rng.choice(["int16", "int32", "int64", "float32"])
         k = rng.randint(1, max(1, T // 2))
-        groups = sorted(i % k for i in range(T)) if rng.random() < 0.5 else [i % k for i in range(T)]
+        r = rng.random()
+        if r < 0.35:
+            groups = sorted(i % k for i in range(T))
+        elif r < 0.7:
+            groups = [i % k for i in range(T)]
+        else:
+            # unbalanced sizes, every id 0..k-1 present
+            groups = list(range(k)) + [rng.randrange(k) if rng.random() < 0.5 else 0 for _ in range(T - k)]
+            if rng.random() < 0.5:
+                groups = sorted(groups)
+            else:
+                rng.shuffle(groups)
         params["groups"] = groups
         params["groups_as"] = rng.choice(["list", "ndarray"])
         params["nodata_via"] = rng.choice(["attr", "arg"])
